@@ -5,6 +5,7 @@ C31 — helper lemmas: the provenance invariant of the chunk cache model.
 in memory under the same file id, on disk under SOME file id with the entry's needle key.
 -/
 import SwV.Model.C31
+import SwV.Model.C31Dat
 import SwV.Spec.C31
 
 namespace SwV.Lemmas.C31
@@ -269,5 +270,16 @@ theorem Ok.fromCache {h : History} {c : Cache} (hc : Ok h c) {f : Fid} (hown : K
     rcases hlo v hv e he with ⟨g, hgk, hgm⟩
     have : g = f := hown g e.data hgm (hgk.trans hk)
     rw [← this]; exact hgm
+
+/-! ### the data file -/
+
+theorem padded_ge (n : Nat) : n ≤ padded n := by unfold padded; split <;> omega
+
+/-- appending to the data file does not change what an entry inside the file reads -/
+theorem read_append (v : BVol) (x : Bytes) (e : Nat × Nat × Nat) (he : e.2.1 + e.2.2 ≤ v.dat.length) :
+    (({ v with dat := v.dat ++ x } : BVol).read e) = v.read e := by
+  simp only [BVol.read]
+  rw [List.drop_append_of_le_length (by omega)]
+  rw [List.take_append_of_le_length (by simp only [List.length_drop]; omega)]
 
 end SwV.Lemmas.C31
